@@ -93,7 +93,7 @@ func (ex *Exec) step(st *State) error {
 		if v == nil {
 			return nil // instruction blocked or re-executes
 		}
-		ex.set(fr, x, v)
+		ex.set(fr, x, st.fold(v))
 		fr.pc++
 		return nil
 	}
@@ -120,7 +120,17 @@ func (ex *Exec) jump(st *State, fr *Frame, to *ssa.BasicBlock) error {
 		if fr.visits == nil {
 			fr.visits = map[int]int{}
 		}
-		fr.visits[to.Index]++
+		// an iteration counts against the bound only when a symbolic branch
+		// was taken since the previous visit: loops whose conditions are all
+		// concrete are plain interpretation and end by themselves (MaxSteps is
+		// the backstop)
+		if fr.lastSym == nil {
+			fr.lastSym = map[int]int{}
+		}
+		if last, seen := fr.lastSym[to.Index]; !seen || last != st.symBr {
+			fr.visits[to.Index]++
+		}
+		fr.lastSym[to.Index] = st.symBr
 		if fr.visits[to.Index] > ex.cfg.Unwind {
 			ex.incomplete(st, fmt.Sprintf("INCOMPLETE bound: unwinding assertion failed (unwind=%d) in %s block %d at %s", ex.cfg.Unwind, fr.fn.fn, to.Index, ex.where(st)))
 			return errPathEnd
@@ -184,6 +194,7 @@ func (ex *Exec) doIf(st *State, fr *Frame, x *ssa.If) error {
 		return ex.jump(st, fr, fr.block.Succs[1])
 	}
 	ex.res.BranchSolver++
+	st.symBr++
 	rt := ex.sat(st, cond)
 	var rf smt.Result
 	if rt == smt.Unsat {
